@@ -5,10 +5,30 @@ package xpath
 type logical func(iterator, string, interface{}, interface{}) bool
 
 var logicalFuncs = [][]logical{
-	{cmpBooleanBoolean, nil, nil, nil},
-	{nil, cmpNumericNumeric, cmpNumericString, cmpNumericNodeSet},
-	{nil, cmpStringNumeric, cmpStringString, cmpStringNodeSet},
-	{nil, cmpNodeSetNumeric, cmpNodeSetString, cmpNodeSetNodeSet},
+	{cmpBooleanBoolean, cmpWithBoolean, cmpWithBoolean, cmpWithBoolean},
+	{cmpWithBoolean, cmpNumericNumeric, cmpNumericString, cmpNumericNodeSet},
+	{cmpWithBoolean, cmpStringNumeric, cmpStringString, cmpStringNodeSet},
+	{cmpWithBoolean, cmpNodeSetNumeric, cmpNodeSetString, cmpNodeSetNodeSet},
+}
+
+// cmpWithBoolean compares a boolean with a value of another type: for = and !=
+// the other operand is converted to a boolean, for the relational operators
+// both are converted to numbers (XPath 1.0, 3.4).
+func cmpWithBoolean(t iterator, op string, m, n interface{}) bool {
+	if op == "=" || op == "!=" {
+		return (asBool(t, m) == asBool(t, n)) == (op == "=")
+	}
+	toNumber := func(v interface{}) float64 {
+		if b, ok := v.(bool); ok {
+			if b {
+				return 1
+			}
+			return 0
+		}
+		return asNumber(t, v)
+	}
+	a := toNumber(m)
+	return cmpNumberNumberF(op, a, toNumber(n))
 }
 
 // number vs number
